@@ -19,10 +19,10 @@ import regen_c13
 PID = "C13"
 THEOREMS = [
     "walk_address_only",
-    "otfad_decrypts_except_known", "otfad_decrypts_except_known_aes", "otfad_decrypts_refuted", "otfad_untouched_outside",
-    "otfad_address_only", "otfad_keyblob_unwrap", "otfad_keyblob_unwrap_aes",
-    "iee_decrypts_except_known", "iee_bypass_refuted", "iee_address_only", "iee_keyblob_unwrap_partial",
-    "bee_decrypts_except_known", "bee_decrypts_refuted", "bee_address_only", "bee_header_unwrap_partial",
+    "otfad_decrypts", "otfad_decrypts_aes", "otfad_untouched_outside", "otfad_address_only",
+    "otfad_keyblob_unwrap", "otfad_keyblob_unwrap_aes",
+    "iee_decrypts", "iee_bypass_identity", "iee_address_only", "iee_keyblob_unwrap_partial",
+    "bee_decrypts", "bee_address_only", "bee_header_unwrap_partial",
 ]
 M32 = 1 << 32
 
@@ -326,6 +326,16 @@ def gen_otfad_tables(rng, n):
         cases.append({"eng": "otfad-table", "blobs": blobs, "kek": rb(rng, 16), "mask": mask, "align": align,
                       "reversed": rng.randrange(2), "cnt": rng.choice([0, 2, 4, 8, 16]),
                       "family": rng.choice([None, None, "mimxrt1176", "mimxrt1189", "mimx9352", "mimxrt685s"])})
+    # fixed: legal boundary values of the scramble parameters (align == 0 with a non-zero mask, mask == 0 with a non-zero
+    # align, all ones): the table must unwrap with the KEK the hardware derives, through Otfad and through OtfadNxp
+    kek = bytes(range(0x10, 0x20))
+    fixed_blobs = [{"key": bytes(range(16)), "ctr": bytes(range(8)), "start": 0x1000 * (i + 1), "end": 0x1000 * (i + 1) + 0x800,
+                    "flags": 3, "zf": bytes(4), "cf": b""} for i in range(4)]
+    for (mask, align) in [(0x12345678, 0), (0xFFFFFFFF, 0), (1, 0), (0, 0x1B), (0, 0), (0xFFFFFFFF, 0xFF), (0x80000001, 0xE4)]:
+        for family in (None, "mimxrt1176", "mimxrt1189", "mimx9352"):
+            for rev in ((0, 1) if family is None else (0,)):
+                cases.append({"eng": "otfad-table", "blobs": fixed_blobs, "kek": kek, "mask": mask, "align": align,
+                              "reversed": rev, "cnt": 8 if family is None else 0, "family": family})
     return cases
 
 
@@ -368,6 +378,17 @@ def gen_iee_images(rng, n):
     for mode, key2 in [(0x6A, k2), (0xA6, k2), (0x66, b"\xff" * 16), (0x66, bytes(16)), (0xAA, b"\xff" * 16), (0x19, b"\xff" * 16)]:
         b = {"lock": 0x59, "attr": 0x5A, "mode": mode, "start": 0x30001000, "end": 0x30008000, "key1": k1, "key2": key2, "po": 0}
         cases.append({"eng": "iee", "blobs": [b], "img": img, "base": 0x30001000, "nxp": 0, "unit": 4096})
+    # fixed: the counter word + (address >> 4) crosses 2^32 inside one call / inside one 4 KiB unit; the 32-bit word wraps
+    # and nothing is carried into the nonce (nonce bytes all 0xFF make a carry visible)
+    for attr in (0x5A, 0xA5):
+        for base, ln, before in [(0x30001000, 4096, 5), (0x30001000, 4112, 256 + 0), (0x30002000, 1040, 64), (0x30001000, 4096, 255),
+                                 (0x30001000, 32, 1)]:
+            w = (M32 - (base >> 4) - before) % M32          # block number `before` of the image gets counter word 0
+            key2 = b"\xff" * 12 + w.to_bytes(4, "little")    # word-reversed: nonce = ff..ff || big-endian w
+            b = {"lock": 0x59, "attr": attr, "mode": 0x66, "start": 0x30001000, "end": 0x30008000,
+                 "key1": bytes(range(16 if attr == 0x5A else 32)), "key2": key2, "po": 0}
+            for nxp in (0, 1):
+                cases.append({"eng": "iee", "blobs": [b], "img": (img * 2)[:ln], "base": base, "nxp": nxp, "unit": 4096})
     return cases
 
 
@@ -885,10 +906,10 @@ def run(tier):
     # cases
     f = 6 if thorough else 1
     streams = {
-        "OTFAD images (Otfad.encrypt_image / OtfadNxp.export_image)": gen_otfad_images(rng, 70 * f),
+        "OTFAD images (Otfad.encrypt_image / OtfadNxp.export_image)": gen_otfad_images(rng, 60 * f),
         "OTFAD key blobs (KeyBlob.plain_data / export)": gen_otfad_blobs(rng, 120 * f),
         "OTFAD key blob tables (encrypt_key_blobs, OtfadNxp.binary_image)": gen_otfad_tables(rng, 60 * f),
-        "IEE images (Iee.encrypt_image / IeeNxp.export_image)": gen_iee_images(rng, 40 * f),
+        "IEE images (Iee.encrypt_image / IeeNxp.export_image)": gen_iee_images(rng, 30 * f),
         "IEE key blobs (IeeNxp.export_key_blobs, plain_data)": gen_iee_tables(rng, 50 * f),
         "BEE images (BeeNxp.export_image)": gen_bee_images(rng, 60 * f),
         "BEE region headers (BeeRegionHeader.export)": gen_bee_headers(rng, 60 * f),
@@ -963,7 +984,8 @@ def run(tier):
                 else:
                     same = rm == want
                 nspec += 1
-                if not same and c["eng"] in ("otfad", "iee", "bee") and known_class(c) and not ORACLES[c["eng"]](c, results[i]):
+                if not same and rep.findings and c["eng"] in ("otfad", "iee", "bee") and known_class(c) \
+                        and not ORACLES[c["eng"]](c, results[i]):
                     # the faithful model reproduces a recorded defect here, the implementation's answer satisfies the
                     # property: the defect has been repaired upstream (reported, not an alarm)
                     nrepaired += 1
